@@ -80,6 +80,15 @@ func witnessTruncInflightSingle() hx.Sx {
 		phaseS(nil, 0, 0, 150))
 }
 
+// antispam enabled (threshold 1000) + json decoder + a stream whose name is the empty string: Pipeline.In compares
+// every line's offset with the saved offset of stream "" (row.Stream is empty for non-CRI decoders)
+func witnessAntispamEmptyStream() hx.Sx {
+	b := &caseB{}
+	return mkCase(cfgS(1, 4, 0, 0, 10, 25, 0, 1000),
+		phaseS([]hx.Sx{opAppend(0, 0, b.line("a", 0, 0, 0), b.line("a", 0, 0, 500), b.line("a", 0, 0, 0), b.line("", 0, 0, 0), b.line("", 0, 0, 0), b.line("", 0, 0, 0))}, 2, 5, 30000),
+		phaseS(nil, 0, 0, 150))
+}
+
 type job struct {
 	stream string
 	which  int
@@ -134,6 +143,7 @@ func gen03(c *hmain.Ctx) {
 	}
 
 	// ---- 2./3. random histories: single-stream and multi-stream files
+	adversarial := false
 	randomCase := func(multi bool) (hx.Sx, bool) {
 		b := &caseB{}
 		persist := r.Intn(2)
@@ -143,7 +153,7 @@ func gen03(c *hmain.Ctx) {
 			outKind = 1
 		}
 		readBuf := 0
-		if r.Chance(1, 3) {
+		if r.Chance(1, 3) || adversarial {
 			readBuf = hx.Pick(r, []int{16, 50, 200})
 		}
 		joinOn := 0
@@ -183,6 +193,9 @@ func gen03(c *hmain.Ctx) {
 					delay = r.Range(1, 12)
 				}
 				ls = append(ls, b.line(hx.Pick(r, fileStreams[f]), r.Intn(40), kind, delay))
+				if adversarial && r.Chance(1, 3) { // empty lines between the events (dropped by the pipeline)
+					ls = append(ls, b.line("", r.Range(0, 2), 2, 0))
+				}
 			}
 			return ls
 		}
@@ -244,6 +257,17 @@ func gen03(c *hmain.Ctx) {
 		total = b.nextID
 		return mkCase(cfg, phases...), total >= 2
 	}
+	// adversarial: stream names with ':' / spaces / empty / absent field only, empty lines between events, tiny read
+	// buffers (lines longer than the buffer), cut last lines
+	adversarial = true
+	saved := streamsPool
+	streamsPool = []string{"", "x:y", noStream, "s p", ": 1", "a: 2"}
+	for i := 0; i < 8*c.Scale; i++ {
+		cs, nt := randomCase(false)
+		add("adversarial", 0, cs, nt)
+	}
+	adversarial = false
+	streamsPool = saved
 	nSingle, nMulti := 18*c.Scale, 18*c.Scale
 	for i := 0; i < nSingle; i++ {
 		cs, nt := randomCase(false)
@@ -311,6 +335,23 @@ func gen03(c *hmain.Ctx) {
 		add("truncate-inflight", 0, witnessTruncInflightBlank(), true)
 	}
 
+	// ---- 7. antispam enabled + a stream named "" (fixed defect: In applied the saved offset of stream "" to every line)
+	add("multi-stream-antispam", multiWhich, witnessAntispamEmptyStream(), true)
+	for i := 0; i < 2*c.Scale; i++ {
+		b := &caseB{}
+		other := hx.Pick(r, []string{"a", "stderr", noStream})
+		var ls []hx.Sx
+		ls = append(ls, b.line(other, r.Intn(8), 0, 0), b.line(other, r.Intn(8), 0, 300+r.Intn(200)), b.line(other, r.Intn(8), 0, 0))
+		n := r.Range(2, 4)
+		for k := 0; k < n; k++ {
+			ls = append(ls, b.line("", r.Intn(8), 0, 0))
+		}
+		cs := mkCase(cfgS(r.Intn(2), 4, 0, 0, 5, 25, 0, 1000),
+			phaseS([]hx.Sx{opAppend(0, 0, ls...)}, 2, 2+n, 30000),
+			phaseS(nil, 0, 0, 150))
+		add("multi-stream-antispam", multiWhich, cs, true)
+	}
+
 	// ---- run: the cases are independent worlds; execute them concurrently, record them in order
 	var wg sync.WaitGroup
 	sem := make(chan struct{}, 12)
@@ -324,6 +365,13 @@ func gen03(c *hmain.Ctx) {
 		}(j)
 	}
 	wg.Wait()
+	noteMu.Lock()
+	for k, n := range notes {
+		for i := 0; i < n; i++ {
+			c.W.Count(k)
+		}
+	}
+	noteMu.Unlock()
 	for _, j := range jobs {
 		c.W.Case(j.stream, j.which, j.cs, j.obs, j.nontr)
 		runs := hx.Items(j.obs)
